@@ -71,6 +71,18 @@ Definition sparse (h : hist) : list (Z * Z) :=
 
 (* ================= 1-3: quantiles, monotonicity, Min / Max / Mean ================= *)
 
+(* monotone in the rank: all pairs (used for up to 100 quantiles); neighbours only, which
+   is the same statement when the list is ordered by rank (the harness emits the quantiles
+   in ascending order) *)
+Definition monotone_all (qs : list (Z * Z)) : bool :=
+  forallb (fun '(k1, v1) => forallb (fun '(k2, v2) => if k1 <=? k2 then v1 <=? v2 else true) qs) qs.
+Fixpoint monotone_adj (qs : list (Z * Z)) : bool :=
+  match qs with
+  | (k1, v1) :: (((k2, v2) :: _) as r) =>
+      (if k1 <=? k2 then v1 <=? v2 else true) && (if k2 <=? k1 then v2 <=? v1 else true) && monotone_adj r
+  | _ => true
+  end.
+
 (* qs: (rank, ValueAtQuantile result); rank = round(q*n/100), computed exactly by the harness *)
 Definition c13_ok_quant (lo hi s : Z) (vs : list Z) (qs : list (Z * Z)) : bool :=
   let c := config_of lo hi s in
@@ -78,7 +90,8 @@ Definition c13_ok_quant (lo hi s : Z) (vs : list Z) (qs : list (Z * Z)) : bool :
   let n := zlen vs in
   forallb (fun '(k, v) => (1 <=? k) && (k <=? n)
                           && (v =? highest_equiv c (nth (Z.to_nat (k - 1)) sorted 0))) qs
-  && forallb (fun '(k1, v1) => forallb (fun '(k2, v2) => if k1 <=? k2 then v1 <=? v2 else true) qs) qs.
+  && monotone_adj qs
+  && (if zlen qs <=? 100 then monotone_all qs else true).
 
 (* the float step: the rank the Go expression int64(q/100*float64(n)+0.5) produced must be
    the exact round(q*n/100) (quantiles within 1e-9 of a rounding tie are not in the case) *)
